@@ -105,6 +105,9 @@ func (e *Engine) sweepContract(fn *ssa.Function, prop string) *Contract {
 	if e.needPrivate != nil {
 		reqs = append(reqs, e.privateRequires(fn)...)
 	}
+	if e.needNode != nil && prop == "C07" {
+		reqs = append(reqs, e.nodeRequires(fn)...)
+	}
 	// closures: captured receivers / contexts / syntax nodes are the enclosing function's (non-nil) values
 	for _, fv := range fn.FreeVars {
 		et := fv.Type().(*types.Pointer).Elem()
